@@ -13,7 +13,7 @@ CLAIMED = {
          "Decided up to the computed tolerance (typ. 1e-4..1e-3 for one value-producing draw, >= one second-level cell (2e-3 quick) for two; trees with >= 3 value-producing levels are explored under reach-aware size plans (DESIGN §11.9) and are reported as not judged when no planned exploration completes within the case's time share). Assumption A-res (no feature narrower than the local resolution between explored words). References: closed forms / special crate, cross-checked against scipy."),
  "C02": ("model_checking", "exhaustive exploration of the execution tree of the real sample() under finite RNG alphabets; exact pmf by interval subdivision + shift-restart closure for inverse transforms, lattices for BTPE/H2PE/PD",
          "T", "DESIGN.md §3.1, §5-C02",
-         "Same engine as C01 on Binomial (all n<=30 x 18 p plus grids to 2^62), Poisson, Geometric, Hypergeometric, Zipf, Zeta. Single-word inverse transforms (BINV, HIN, both geometric loops) are resolved exactly (1e-15); BTPE, H2PE, PD-Poisson, Zipf, Zeta by lattice x subdivision.",
+         "Same engine as C01 on Binomial (all n<=30 x 18 p plus grids to 2^62), Poisson, Geometric, Hypergeometric, Zipf, Zeta. Single-word inverse transforms (BINV, HIN, both geometric loops) are resolved exactly (1e-15); BTPE, H2PE, Zipf, Zeta by lattice x subdivision (4096 x 2048 quick, 16384 x 4096 thorough), PD-Poisson under reach-aware size plans.",
          "Not decided: Knuth's product method (Poisson lambda < 12, Binomial's Poisson-limit branch) - no restart structure, one value-producing draw per unit of output; stated in the evidence. References: Loader saddle-point pmfs, Edgeworth expansion for sd > 1.5e5."),
  "C06": ("model_checking", "exhaustive check of all 4x257 table entries against the ziggurat equations + exhaustive exploration of the primitives' execution tree (first word = all 256 layers x 2^14 strata)",
          "T+F", "DESIGN.md §5-C06",
